@@ -56,3 +56,13 @@ func VerifAuthErrAuthNeeded() (string, int) { return ErrAuthNeeded.msg, ErrAuthN
 
 // VerifAuthErrAuthInvalid exposes message and status of the error apiKeyProcessor answers with.
 func VerifAuthErrAuthInvalid() (string, int) { return ErrAuthInvalid.msg, ErrAuthInvalid.status }
+
+// VerifAuthQueryChecker builds ONE instance of the query token middleware around next, the way any
+// net/http middleware user (and the repo's own TestRouter_queryTokenChecker) does.  gorilla/mux
+// happens to call the constructor again for every matched request; an instance that is kept must
+// still follow the configuration in force at request time.
+func VerifAuthQueryChecker(r *Router, next http.Handler) http.Handler { return r.queryTokenChecker(next) }
+
+// VerifAuthAPIKeyProcessor builds ONE instance of the /1/ API-key middleware around next (kept across
+// configuration changes by the harness).
+func VerifAuthAPIKeyProcessor(r *Router, next http.Handler) http.Handler { return r.apiKeyProcessor(next) }
